@@ -195,3 +195,19 @@ Fixpoint publish_all_live (tab : list lobs) (os : list nat) (es : list nat) : li
       let '(ds', oo') := publish_all_live tab os' r in
       (ds ++ ds', oo || oo')
   end.
+
+(* ---------- limited history used over time: events logged and replays interleaved on ONE observer ---------- *)
+Inductive bop := BEvent (n : nat) | BReplay.
+Fixpoint brun (size : option nat) (buf : list nat) (ops : list bop) : list (list nat) :=
+  match ops with
+  | [] => []
+  | BEvent n :: r => brun size (push size buf n) r
+  | BReplay :: r => buf :: brun size buf r             (* replayTo does not change the buffer *)
+  end.
+(* Spec: each replay shows the last N of everything logged so far *)
+Fixpoint bspec (size : option nat) (seen : list nat) (ops : list bop) : list (list nat) :=
+  match ops with
+  | [] => []
+  | BEvent n :: r => bspec size (seen ++ [n]) r
+  | BReplay :: r => (match size with None => seen | Some k => lastn k seen end) :: bspec size seen r
+  end.
